@@ -22,6 +22,7 @@ import (
 	"encoding/hex"
 	"encoding/json"
 	"fmt"
+	"math/bits"
 	"math/rand"
 	"os"
 	"os/exec"
@@ -474,6 +475,37 @@ func mutations(rng *rand.Rand, h []*lib.Node, nbits, nFlips int) []mproof {
 		cur = append([]*lib.Node{par}, cur[2:]...)
 		add("inner-as-leaf", fmt.Sprint("level ", lvl), cloneProof(cur))
 	}
+	// the boundary between the key and the value of an entry moved: a parent hashes key||value||key||value without length
+	// framing, so {key[:j], key[j:]||value} (or {key||value[:m], value[m:]}) reproduces the same hash chain
+	okKey := func(k []byte) bool { // well-formed node key of at most nbits bits
+		if len(k) < 2 {
+			return false
+		}
+		bl, pad := bits.Len8(k[len(k)-2]), int(k[len(k)-1])
+		if bl == 0 {
+			bl = 1
+		}
+		return pad+bl <= 8 && (len(k)-2)*8+pad+bl <= nbits
+	}
+	for i := 0; i < L && i < 3; i++ {
+		shifted := 0
+		for j := 2; j < len(h[i].Key) && shifted < 4; j++ {
+			if kp := h[i].Key[:j]; okKey(kp) {
+				p := cloneProof(h)
+				p[i].Key = bytes.Clone(kp)
+				p[i].Value = append(bytes.Clone(h[i].Key[j:]), h[i].Value...)
+				add("boundary-shift-key-to-value", fmt.Sprintf("entry %d split %d", i, j), p)
+				shifted++
+			}
+		}
+		for m := 1; m <= 3 && m < len(h[i].Value); m++ {
+			if kp := append(bytes.Clone(h[i].Key), h[i].Value[:m]...); okKey(kp) {
+				p := cloneProof(h)
+				p[i].Key, p[i].Value = kp, bytes.Clone(h[i].Value[m:])
+				add("boundary-shift-value-to-key", fmt.Sprintf("entry %d take %d", i, m), p)
+			}
+		}
+	}
 	return out
 }
 
@@ -712,7 +744,7 @@ func (e *env) adversarial(t *tctx, rng *rand.Rand, subj subject, uni [][]byte, s
 	if sz.families > 0 && len(ms) > sz.families+sz.flips {
 		var fl, fam []mproof
 		for _, m := range ms {
-			if strings.HasPrefix(m.shape, "byteflip") {
+			if strings.HasPrefix(m.shape, "byteflip") || strings.HasPrefix(m.shape, "boundary-shift") {
 				fl = append(fl, m)
 			} else {
 				fam = append(fam, m)
